@@ -23,7 +23,6 @@ import os
 import copy
 import json
 import random
-import shutil
 import numpy as np
 
 from .. import tlc, ftable
@@ -803,6 +802,30 @@ def compare_irr_full(rep, label, system, grids, calcs_fn, Ef, tol, stats, tag, p
     return True
 
 
+def observe_tetrahedron(rep, rng, tag, Ef):
+    """OBSERVATION, not a violation (no known-finding entry exists): TetraWeightsParal cuts every face of the K-point's parallelepiped
+    along one fixed diagonal; a 4-fold rotation or a mirror maps it to the other diagonal, so with tetra=True the irreducible +
+    symmetrised run is not the full-grid run (the difference is of the order of the discretisation error)"""
+    import wannierberri as wb
+    from wannierberri import calculators as calc
+    try:
+        ham = KS.symmetric_hamiltonian("C4v", rng, nw=2, planar=True)
+        system = KS.make_system("C4v", nw=2, ham=ham, periodic=(True, True, False))
+        mk = lambda: {"cumdos_tetra": calc.static.CumDOS(Efermi=Ef, tetra=True, save_mode=""), "cumdos": calc.static.CumDOS(Efermi=Ef, save_mode="")}
+        with quiet():
+            grid = wb.Grid(system=system, NKdiv=[4, 4, 1], NKFFT=[1, 1, 1])
+        rf = KS.run_wb(system, grid, mk(), False, tag + "_num")
+        ri = KS.run_wb(system, grid, mk(), True, tag + "_num")
+        rep.part("observation_tetrahedron_with_symmetry", group="C4v", NKdiv=[4, 4, 1], NKFFT=[1, 1, 1],
+                 irreducible_vs_full_CumDOS_tetra=float(np.abs(rf.results["cumdos_tetra"].data - ri.results["cumdos_tetra"].data).max()),
+                 irreducible_vs_full_CumDOS=float(np.abs(rf.results["cumdos"].data - ri.results["cumdos"].data).max()),
+                 note="tetra=True is not compared as a violation: see the final report of the fixer (candidate finding)")
+    except MachineryError:
+        raise
+    except Exception as ex:
+        rep.part("observation_tetrahedron_with_symmetry", error=repr(ex)[:200])
+
+
 def part_numeric(rep, thorough, rng, tag):
     Ef = np.linspace(-2.0, 2.0, 9) + 0.0137       # off the round band energies of the bundled models
     omega = np.linspace(0.0, 3.0, 4)
@@ -832,6 +855,7 @@ def part_numeric(rep, thorough, rng, tag):
                 models.append(grp)
             elif not rep.violations:
                 raise MachineryError(f"plan entry {grp}: 8 random models were all excluded by EnergiesSafe / NoDegeneracyOnGrid")
+    observe_tetrahedron(rep, rng, tag, Ef)
     skipped = {}
     for label, mk, grids, per_band in bundled_models():
         try:
@@ -900,6 +924,8 @@ def check(pid, tier):
         part_numeric(rep, thorough, rng, tag)
         progress("real_calculators", t0)
         KS.flush_private(rep)
+        rep.part("numeric_only", parts=["float_fields", "all_calculators", "real_calculators"],
+                 note="float comparisons (deciding, but not part of the model_checking level claim)")
         rep.part("cpu_seconds", exact_parts=round(t1 - t0, 1), float_fields=round(t2 - t1, 1), all_calculators=round(t3 - t2, 1),
                  real_calculators=round(cpu_seconds() - t3, 1), **cpu_split())
     except Exception:
